@@ -27,17 +27,16 @@ import (
 type c15Q map[string]bool
 
 var c15Quirks = map[string][]string{
-	"rename_object":     {"ref-match-case-sensitive", "visitor-positions-only", "collision-overwrites"},
-	"add_object":        {"overwrites-existing"},
-	"duplicate_object":  {"source-exact-match", "overwrites-existing"},
-	"retype_object":     {"as-value-shared"},
-	"add_fields":        {"as-value-shared"},
-	"retype_field":      {"first-match-only", "as-value-shared"},
-	"replace_reference": {"drops-meta", "visitor-positions-only"},
-	"constant_to_enum":  {"drops-meta"},
-	"hint_object":       {"nil-hints-panic"},
-	"prefix":            {"visitor-positions-only", "enum-member-names-rewritten", "entrypoint-string-stale", "collision-overwrites"},
-	"unspec":            {"collision-overwrites"},
+	"rename_object":     {"rename_object/ref-match-case-sensitive", "rename_object/refs-outside-visitor-positions", "rename_object/collision-overwrites"},
+	"add_object":        {"add_object/overwrites-existing"},
+	"duplicate_object":  {"duplicate_object/source-exact-match", "duplicate_object/overwrites-existing"},
+	"retype_object":     {"seq/as-value-shared"},
+	"add_fields":        {"seq/as-value-shared"},
+	"retype_field":      {"retype_field/first-match-only", "seq/as-value-shared"},
+	"replace_reference": {"replace_reference/drops-meta", "replace_reference/refs-outside-visitor-positions"},
+	"constant_to_enum":  {"constant_to_enum/drops-meta"},
+	"hint_object":       {"hint_object/nil-hints-panic"},
+	"prefix":            {"prefix/refs-outside-visitor-positions", "prefix/enum-member-names-rewritten", "prefix/entrypoint-string-stale"},
 }
 
 // ---------- cloning (own code: the oracle does not rely on cog's DeepCopy) ----------
@@ -354,6 +353,7 @@ func c15Loads(st *c15Step) bool {
 func c15SpecStep(st *c15Step, ss ast.Schemas, q c15Q, touched map[string]bool) string {
 	touch := func(o ast.Object) { touched[o.SelfRef.ReferredPkg+"."+o.Name] = true }
 	status := "ok"
+	overwrite := q["rename_object/collision-overwrites"] || st.Name == "unspec" // unspec is not part of C15: specified as implemented
 	forObjs := func(f func(s *ast.Schema, o ast.Object) (ast.Object, bool)) {
 		for _, s := range ss {
 			objs := []ast.Object{}
@@ -363,7 +363,7 @@ func c15SpecStep(st *c15Step, ss ast.Schemas, q c15Q, touched map[string]bool) s
 					objs = append(objs, n)
 				}
 			}
-			if !c15SetObjs(s, objs, q["collision-overwrites"]) && !q["collision-overwrites"] {
+			if !c15SetObjs(s, objs, overwrite) && !overwrite {
 				status = "conflict"
 			}
 		}
@@ -395,10 +395,10 @@ func c15SpecStep(st *c15Step, ss ast.Schemas, q c15Q, touched map[string]bool) s
 				}
 			}
 		}
-		all := !q["visitor-positions-only"]
+		all := !q["rename_object/refs-outside-visitor-positions"]
 		forTypes(all, func(t *ast.Type) {
 			hit := func(p, n string) bool {
-				if q["ref-match-case-sensitive"] {
+				if q["rename_object/ref-match-case-sensitive"] {
 					return p == pkg && n == obj
 				}
 				return p == pkg && renamed[n]
@@ -475,7 +475,7 @@ func c15SpecStep(st *c15Step, ss ast.Schemas, q c15Q, touched map[string]bool) s
 					exists = exists || f.Name == nf.Name
 				}
 				if !exists {
-					if q["as-value-shared"] {
+					if q["seq/as-value-shared"] {
 						o.Type.Struct.Fields = append(o.Type.Struct.Fields, sharedFields[fi])
 					} else {
 						o.Type.Struct.Fields = append(o.Type.Struct.Fields, c15CloneField(nf, true))
@@ -493,7 +493,7 @@ func c15SpecStep(st *c15Step, ss ast.Schemas, q c15Q, touched map[string]bool) s
 			}
 			n := ast.Object{Name: obj, Comments: append([]string(nil), st.Comments...), Type: c15CloneType(*st.As, true), SelfRef: ast.RefType{ReferredPkg: pkg, ReferredType: obj}}
 			touch(n)
-			if s.Objects.Has(obj) && !q["overwrites-existing"] {
+			if s.Objects.Has(obj) && !q["add_object/overwrites-existing"] {
 				status = "conflict"
 				continue
 			}
@@ -509,7 +509,7 @@ func c15SpecStep(st *c15Step, ss ast.Schemas, q c15Q, touched map[string]bool) s
 			}
 			for _, o := range c15ObjList(s) {
 				o := o
-				if src == nil && (o.Name == sobj || (!q["source-exact-match"] && strings.EqualFold(o.Name, sobj))) {
+				if src == nil && (o.Name == sobj || (!q["duplicate_object/source-exact-match"] && strings.EqualFold(o.Name, sobj))) {
 					src = &o
 				}
 			}
@@ -535,7 +535,7 @@ func c15SpecStep(st *c15Step, ss ast.Schemas, q c15Q, touched map[string]bool) s
 				d.Type.Struct.Fields = kept
 			}
 			touch(d)
-			if s.Objects.Has(dobj) && !q["overwrites-existing"] {
+			if s.Objects.Has(dobj) && !q["duplicate_object/overwrites-existing"] {
 				status = "conflict"
 				continue
 			}
@@ -549,7 +549,7 @@ func c15SpecStep(st *c15Step, ss ast.Schemas, q c15Q, touched map[string]bool) s
 			if ref.matches(o) {
 				touch(o)
 				o.Type = c15CloneType(*st.As, true)
-				if q["as-value-shared"] {
+				if q["seq/as-value-shared"] {
 					o.Type = shared // cog assigns the very same Type value (same kind pointers) to every match
 				}
 				if st.HasComments {
@@ -572,13 +572,13 @@ func c15SpecStep(st *c15Step, ss ast.Schemas, q c15Q, touched map[string]bool) s
 				}
 				touch(o)
 				o.Type.Struct.Fields[i].Type = c15CloneType(*st.As, true)
-				if q["as-value-shared"] {
+				if q["seq/as-value-shared"] {
 					o.Type.Struct.Fields[i].Type = shared
 				}
 				if st.HasComments {
 					o.Type.Struct.Fields[i].Comments = append([]string(nil), st.Comments...)
 				}
-				if q["first-match-only"] {
+				if q["retype_field/first-match-only"] {
 					break
 				}
 			}
@@ -626,9 +626,9 @@ func c15SpecStep(st *c15Step, ss ast.Schemas, q c15Q, touched map[string]bool) s
 	case "replace_reference":
 		fp, fo, _ := c15ObjRef(st.S["from"])
 		tp, to, _ := c15ObjRef(st.S["to"])
-		forTypes(!q["visitor-positions-only"], func(t *ast.Type) {
+		forTypes(!q["replace_reference/refs-outside-visitor-positions"], func(t *ast.Type) {
 			if t.Kind == ast.KindRef && t.Ref != nil && t.Ref.ReferredPkg == fp && strings.EqualFold(t.Ref.ReferredType, fo) {
-				if q["drops-meta"] {
+				if q["replace_reference/drops-meta"] {
 					*t = ast.NewRef(tp, to)
 				} else {
 					t.Ref = &ast.RefType{ReferredPkg: tp, ReferredType: to}
@@ -652,7 +652,7 @@ func c15SpecStep(st *c15Step, ss ast.Schemas, q c15Q, touched map[string]bool) s
 			}
 			touch(o)
 			n := ast.NewEnum([]ast.EnumValue{{Type: ast.String(), Name: v, Value: v}})
-			if !q["drops-meta"] {
+			if !q["constant_to_enum/drops-meta"] {
 				n.Nullable, n.Default, n.Hints = o.Type.Nullable, o.Type.Default, o.Type.Hints
 			}
 			o.Type = n
@@ -676,7 +676,7 @@ func c15SpecStep(st *c15Step, ss ast.Schemas, q c15Q, touched map[string]bool) s
 				return o, true
 			}
 			if o.Type.Hints == nil {
-				if q["nil-hints-panic"] && len(st.KVs) > 0 {
+				if q["hint_object/nil-hints-panic"] && len(st.KVs) > 0 {
 					status = "panic"
 					return o, true
 				}
@@ -706,7 +706,7 @@ func c15SpecStep(st *c15Step, ss ast.Schemas, q c15Q, touched map[string]bool) s
 		if pfx == "" {
 			break
 		}
-		all := !q["visitor-positions-only"]
+		all := !q["prefix/refs-outside-visitor-positions"]
 		forTypes(all, func(t *ast.Type) {
 			switch {
 			case t.Kind == ast.KindRef && t.Ref != nil:
@@ -723,14 +723,14 @@ func c15SpecStep(st *c15Step, ss ast.Schemas, q c15Q, touched map[string]bool) s
 						d.DiscriminatorMapping[k] = pfx + v
 					}
 				}
-			case t.Kind == ast.KindEnum && t.Enum != nil && q["enum-member-names-rewritten"]:
+			case t.Kind == ast.KindEnum && t.Enum != nil && q["prefix/enum-member-names-rewritten"]:
 				for i, v := range t.Enum.Values {
 					t.Enum.Values[i].Name = tools.UpperCamelCase(pfx) + tools.UpperCamelCase(v.Name)
 				}
 			}
 		})
 		for _, s := range ss {
-			if s.EntryPoint != "" && !q["entrypoint-string-stale"] {
+			if s.EntryPoint != "" && !q["prefix/entrypoint-string-stale"] {
 				s.EntryPoint = pfx + s.EntryPoint
 			}
 		}
@@ -767,7 +767,7 @@ func c15SpecStep(st *c15Step, ss ast.Schemas, q c15Q, touched map[string]bool) s
 				}
 				objs = append(objs, o)
 			}
-			if !c15SetObjs(s, objs, q["collision-overwrites"]) && !q["collision-overwrites"] {
+			if !c15SetObjs(s, objs, overwrite) && !overwrite {
 				status = "conflict"
 			}
 		}
@@ -917,7 +917,7 @@ func c15Verdict(steps []*c15Step, in ast.Schemas, status string, out ast.Schemas
 	// fields_set_default with keys that hit the same field with different values: the result
 	// depends on Go's map iteration order; there is nothing to compare against
 	if _, es, _ := c15Spec(steps, in, c15Q{}); es == "ambiguous" {
-		return "FAIL " + label + " explained-by=ambiguous-keys " + diff
+		return "FAIL " + label + " explained-by=fields_set_default/ambiguous-keys " + diff
 	}
 	best := ""
 	for mask := 1; mask < 1<<len(names); mask++ {
